@@ -1,5 +1,124 @@
-"""Self-test campaign (mutants, twins, positive controls) - filled in later."""
+"""Self-test campaign: breaking mutants must fire (and name the expected rule), silent twins
+must not.  Variants are produced in memory from the *current* working tree and analysed
+with the same rule code (nothing is written to disk, nothing is executed)."""
+from __future__ import annotations
+
+import os
+import time
+from concurrent.futures import ProcessPoolExecutor
+
+from sa.driver import analyse_variant, repo_root
+from sa.loader import Project
+from sa.report import VIOLATION
+
+from . import ops
+
+QUICK_CONTROLS_PER_PROP = 4
 
 
-def run_for_check(prop, project, tier):
-    return [], {}
+def _apply(project_sources: dict, m: dict):
+    rel = os.path.join(Project.PKG_DIR, m["file"])
+    src = project_sources.get(rel)
+    if src is None:
+        return None
+    out = src
+    for old, new in m["edits"]:
+        want = m.get("count", 1)
+        if (want is None and out.count(old) < 1) or (want is not None and out.count(old) != want):
+            return None
+        out = out.replace(old, new)
+    return {rel: out}
+
+
+def _run_one(args):
+    prop, m, sources = args
+    ov = _apply(sources, m)
+    if ov is None:
+        return (m["id"], "n/a", [], "")
+    try:
+        compile(list(ov.values())[0], m["file"], "exec")
+    except SyntaxError as e:
+        return (m["id"], "n/a", [], f"variant does not compile: {e}")
+    verdict, rep = analyse_variant(prop, ov)
+    if isinstance(rep, str):
+        return (m["id"], verdict, [], rep)
+    rules = sorted({i.rule for i in rep.instances if i.verdict == VIOLATION})
+    detail = "; ".join(f"{i.rule}@{i.site}" for i in rep.instances if i.verdict != "HOLDS")[:400]
+    return (m["id"], verdict, rules, detail)
+
+
+def run_for_check(prop: str, project: Project, tier: str):
+    """Positive controls (quick: a few breaking mutants per property; thorough: all mutants + twins)."""
+    sources = {m.relpath: m.src for m in project.modules.values()}
+    muts = [m for m in ops.MUTANTS if m["prop"] == prop]
+    breaking = [m for m in muts if m["kind"] == "break"]
+    twins = [m for m in muts if m["kind"] == "twin"]
+    if tier != "thorough":
+        # one control per rule, at most QUICK_CONTROLS_PER_PROP
+        seen, chosen = set(), []
+        for m in breaking:
+            r = m["rules"][0]
+            if r not in seen and m.get("control", True):
+                seen.add(r)
+                chosen.append(m)
+        breaking = chosen[:QUICK_CONTROLS_PER_PROP]
+        twins = []
+    t0 = time.time()
+    jobs = [(prop, m, sources) for m in breaking + twins]
+    results = {}
+    if tier == "thorough" and len(jobs) > 4:
+        with ProcessPoolExecutor(max_workers=min(16, len(jobs))) as ex:
+            for r in ex.map(_run_one, jobs):
+                results[r[0]] = r
+    else:
+        for j in jobs:
+            r = _run_one(j)
+            results[r[0]] = r
+    controls = []
+    table = []
+    for m in breaking:
+        _, verdict, rules, detail = results[m["id"]]
+        fired = verdict == "violation" and any(r in rules for r in m["rules"])
+        table.append({"id": m["id"], "kind": "break", "expect": m["rules"], "verdict": verdict, "rules_fired": rules, "ok": fired or verdict == "n/a", "what": m["what"]})
+        if verdict == "n/a":
+            continue  # operator does not apply to this (edited) tree: informational
+        controls.append({"rule": m["rules"][0], "mutant": m["id"], "fired": fired, "verdict": verdict, "rules_fired": rules})
+    twin_alarms = 0
+    for m in twins:
+        _, verdict, rules, detail = results[m["id"]]
+        ok = verdict in ("holds", "n/a")
+        if verdict == "violation":
+            twin_alarms += 1
+        table.append({"id": m["id"], "kind": "twin", "verdict": verdict, "rules_fired": rules, "ok": ok, "what": m["what"], "detail": detail})
+        if verdict != "n/a":
+            controls.append({"rule": f"twin:{m['id']}", "mutant": m["id"], "fired": ok, "verdict": verdict, "rules_fired": rules})
+    extra = {
+        "selftest": {
+            "mutants_run": len([t for t in table if t["kind"] == "break" and t["verdict"] != "n/a"]),
+            "mutants_detected": len([t for t in table if t["kind"] == "break" and t["verdict"] == "violation" and t["ok"]]),
+            "twins_run": len([t for t in table if t["kind"] == "twin" and t["verdict"] != "n/a"]),
+            "twins_silent": len([t for t in table if t["kind"] == "twin" and t["verdict"] == "holds"]),
+            "not_applicable": len([t for t in table if t["verdict"] == "n/a"]),
+            "wall_s": round(time.time() - t0, 2),
+            "table": table,
+        }
+    }
+    return controls, extra
+
+
+def main(argv: list) -> int:
+    """./check selftest [ID...] : run the whole catalogue and print a table."""
+    project = Project(repo_root())
+    props = [a.upper() for a in argv] or sorted({m["prop"] for m in ops.MUTANTS})
+    bad = 0
+    for prop in props:
+        controls, extra = run_for_check(prop, project, "thorough")
+        st = extra["selftest"]
+        print(f"{prop}: mutants {st['mutants_detected']}/{st['mutants_run']} detected, twins {st['twins_silent']}/{st['twins_run']} silent, n/a {st['not_applicable']} ({st['wall_s']}s)")
+        for t in st["table"]:
+            if not t["ok"]:
+                bad += 1
+                print(f"   FAIL {t['kind']} {t['id']}: verdict={t['verdict']} fired={t['rules_fired']} expected={t.get('expect')} {t.get('detail', '')}")
+            elif t["verdict"] == "n/a":
+                print(f"   n/a  {t['id']}")
+    return 1 if bad else 0
